@@ -1,4 +1,4 @@
-(** * Helper: mc_helper.hpp (weighted_with_variance, weighted_equally, chi_square_dof,
+(** * Helper: mc_helper.hpp after the finite_calls repair (weighted_with_variance, weighted_equally, chi_square_dof,
     the distribution accumulator).  No proofs here. *)
 From Coq Require Import ZArith NArith List.
 From HepMC Require Import Num Translated Result.
@@ -11,14 +11,14 @@ Section Helper.
 
   Definition wwv_step (a : wacc) (r : mcres K) : wacc :=
     let a' := mk_wacc (w_calls a + r_calls r) (w_nz a + r_nz r) (w_fin a + r_fin r) (w_est a) (w_var a) in
-    if N.eqb (r_nz r) 0 then a' else
+    if N.eqb (r_fin r) 0 then a' else
       let tmp := div K (one K) (variance r) in
       mk_wacc (w_calls a') (w_nz a') (w_fin a') (add K (w_est a) (mul K tmp (value r))) (add K (w_var a) tmp).
 
   Definition weighted_with_variance (rs : list (mcres K)) : mcres K :=
     let a := fold_left wwv_step rs (mk_wacc 0 0 0 (zero K) (zero K)) in
     let '(est, var) :=
-      if N.eqb (w_nz a) 0 then (w_est a, w_var a)
+      if N.eqb (w_fin a) 0 then (w_est a, w_var a)
       else let v := div K (one K) (w_var a) in (mul K (w_est a) v, v) in
     mk_result (w_calls a) (w_nz a) (w_fin a) est (fsqrt K var).
 
